@@ -20,7 +20,10 @@ def parseRound (s : String) : Option (Round × Option Nat) :=
     let hd := (hd.splitOn "~").headD hd
     let head ← if hd = "E" || hd = "F" then some none else (hd.toInt?).map some
     let pan ← if fl.startsWith "p" then ((fl.drop 1).toString.toNat?).map some else some none
-    let fail ← if fl = "n" then some none else if pan.isSome then some pan else (fl.toNat?).map some
+    -- `<idx>[a|b][kind]`: which of the handler's node reads fails and with which KIND of error; for the model a failed
+    -- read is a failed handler, whatever the kind
+    let digits := String.ofList (fl.toList.takeWhile Char.isDigit)
+    let fail ← if fl = "n" then some none else if pan.isSome then some pan else (digits.toNat?).map some
     let ok ← if st = "s" then some true else if st = "x" then some false else none
     let crash ← match rest with
       | [] => some (pan.map (· + 1))
@@ -117,7 +120,7 @@ def handle (op : String) (args : List String) (impl : String) : Option Verdict :
     let scanned := ss.any fun st => (st.1.splitOn "/S").length > 1
     return ⟨m, ok, s!"seq:{kindStr kind}:n={min ss.length 4}:accepted={accepted}:scanned={scanned}"⟩
   | "scan", [kind, conf, k, nh, start, rounds] => some <| Id.run do
-    let some kind := parseKind kind | return bad
+    let some kind := parseKind (String.ofList (kind.toList.filter (· != '+'))) | return bad
     let some conf := conf.toInt? | return bad
     let some k := k.toInt? | return bad
     let some nh := nh.toNat? | return bad
@@ -143,6 +146,28 @@ def handle (op : String) (args : List String) (impl : String) : Option Verdict :
       return ⟨if latest.isNone then "err" else "panic", !(impl.startsWith "ok"), "evmretrytx:no-block-number"⟩
     let some r := receipt.toInt? | return bad
     return retryVerdict "evmretrytx" latest (fun l => retryReady l r conf) (fun l => decide (conf ≤ l - r)) "ok:2" impl "err" false
+  | "retryv2", [kind, latest, h, conf] => some <| Id.run do
+    let some latest := parseHead latest | return bad
+    let some conf := conf.toInt? | return bad
+    let some h := h.toInt? | return bad
+    -- the retried height is the event's height, unchanged, whatever its size
+    if kind == "sub" then
+      return retryVerdict "retryv2:sub" latest (fun l => subRetryMsgReady l h) (fun l => decide (h ≤ l)) s!"proc:{h}.{h}" impl
+    return retryVerdict s!"retryv2:{kind}" latest (fun l => retryReady l h conf) (fun l => decide (conf ≤ l - h)) s!"proc:{h}.{h}" impl
+  | "evmretryreal", [latest, h, conf, faults] => some <| Id.run do
+    let some latest := parseHead latest | return bad
+    let some conf := conf.toInt? | return bad
+    let some h := h.toInt? | return bad
+    let some l := latest | return ⟨"reads=-;err", impl == "reads=-;err", "evmretryreal:rpc-error"⟩
+    let nf := (items faults ",").length
+    let ready := retryReady l h conf
+    let m := if !ready then "reads=-;err" else if nf > 0 then s!"reads={h}.{h};err" else s!"reads={h}.{h};proc:0"
+    -- property: the node is only ever asked for exactly the retried block, and only when that block is confirmed —
+    -- whatever kind of error a read fails with
+    let readsPart := ((impl.splitOn ";").headD "").drop 6
+    let reads := items readsPart.toString ","
+    let ok := reads.all (fun r => r == s!"{h}.{h}") && (reads.isEmpty || decide (conf ≤ l - h))
+    return ⟨m, ok, s!"evmretryreal:ready={ready}:faults={min nf 3}"⟩
   | "evmretrymsg", [latest, h, conf] => some <| Id.run do
     let some latest := parseHead latest | return bad
     let some conf := conf.toInt? | return bad
